@@ -8,7 +8,10 @@
 EXTENDS Naturals, Sequences, FiniteSets, TLC, Json
 MaxN == 3
 Fault == 99
-Scenario == UNION {[n : {n}, tr : [1..n -> BOOLEAN], raiseAt : 0..n, genRaises : BOOLEAN, inj : {"none", "ok", "raise"},
+\* what scheduled step k does to the program: nothing ("no"), a change that shows in the translation ("vis"), or one that does not
+\* ("sil": e.g. an erasure the Java translator hides by printing the recorded type) - the pickled program must carry it all the same
+Effects == {"no", "vis", "sil"}
+Scenario == UNION {[n : {n}, tr : [1..n -> Effects], raiseAt : 0..n, genRaises : BOOLEAN, inj : {"none", "ok", "raise"},
                     keepAll : BOOLEAN, onlyCP : BOOLEAN] : n \in 0..MaxN}
 VARIABLES sc,      \* the scenario (what the generator / the transformations do)
           pc, cur, \* control point; ProgramProcessor.current_transformation
@@ -19,7 +22,8 @@ VARIABLES sc,      \* the scenario (what the generator / the transformations do)
 vars == <<sc, pc, cur, marks, pkg, files, res>>
 NoRes == [failed |-> FALSE, ntrans |-> 0, error |-> "", programs |-> {}]
 Init == sc \in Scenario /\ pc = "generate" /\ cur = 0 /\ marks = {} /\ pkg = 0 /\ files = [p \in {} |-> 0] /\ res = NoRes
-Put(f, path) == [p \in DOMAIN f \cup {path} |-> IF p = path THEN [text |-> marks', bin |-> marks', pkg |-> pkg'] ELSE f[p]]
+Visible(ms) == {k \in ms : k = Fault \/ sc.tr[k] = "vis"}
+Put(f, path) == [p \in DOMAIN f \cup {path} |-> IF p = path THEN [text |-> Visible(marks'), bin |-> marks', pkg |-> pkg'] ELSE f[p]]
 Min(a, b) == IF a < b THEN a ELSE b
 \* except Exception in gen_program: transformations = schedule[:current_transformation]
 Fail(msg) == /\ pc' = "done" /\ res' = [failed |-> TRUE, ntrans |-> Min(cur, sc.n), error |-> msg, programs |-> {}]
@@ -35,8 +39,8 @@ Transform ==
   /\ LET k == cur + 1 IN
      IF sc.raiseAt = k THEN Fail("step")
      ELSE /\ cur' = k /\ UNCHANGED <<sc, pc, pkg, res>>
-          /\ marks' = IF sc.tr[k] THEN marks \cup {k} ELSE marks
-          /\ files' = IF sc.tr[k] /\ sc.keepAll THEN Put(files, "transformations/" \o ToString(k - 1)) ELSE files
+          /\ marks' = IF sc.tr[k] # "no" THEN marks \cup {k} ELSE marks
+          /\ files' = IF sc.tr[k] # "no" /\ sc.keepAll THEN Put(files, "transformations/" \o ToString(k - 1)) ELSE files
 \* the program after the schedule is the well-typed test case: batch directory and <bugs>/tmp/<pid>
 SaveCorrect ==
   /\ pc = "cp" /\ cur = sc.n
@@ -62,7 +66,7 @@ Spec == Init /\ [][Next]_vars /\ WF_vars(Next)
 
 \* ---- design properties ------------------------------------------------------------------------------------------------------
 Has(p) == p \in DOMAIN files
-CPMarks == {k \in 1..sc.n : sc.tr[k]}
+CPMarks == {k \in 1..sc.n : sc.tr[k] = "vis"}
 Done == pc = "done"
 \* the file compiled as "must be accepted" never carries the injected fault and carries every effective scheduled step
 PassIsFinal == (Done /\ ~res.failed) => (Has("batch/p0") /\ files["batch/p0"].text = CPMarks /\ files["batch/p0"].pkg = 0 /\ files["tmp/Main"] = files["batch/p0"])
@@ -73,12 +77,12 @@ FailIsFaulty == (Done /\ ~res.failed) =>
    /\ (Has("batch/p1") => files["batch/p1"].text = CPMarks \cup {Fault} /\ files["batch/p1"].pkg = 1 /\ files["tmp/Incorrect"] = files["batch/p1"])
    /\ (sc.onlyCP => ~Has("batch/p1"))
 \* text and pickled program written under one path describe the same program
-TextIsBin == \A p \in DOMAIN files : files[p].text = files[p].bin
+TextIsBin == \A p \in DOMAIN files : files[p].text = Visible(files[p].bin)
 \* --keep-all keeps the program after every effective step under its 0-based step number, and nothing is kept without it
 KeepAll == Done =>
    /\ (~sc.keepAll => DOMAIN files \subseteq {"batch/p0", "batch/p1", "tmp/Main", "tmp/Incorrect"})
-   /\ (sc.keepAll /\ ~res.failed => \A k \in 1..sc.n : (Has("transformations/" \o ToString(k - 1)) <=> sc.tr[k]))
-   /\ \A k \in 1..sc.n : Has("transformations/" \o ToString(k - 1)) => files["transformations/" \o ToString(k - 1)].text = {j \in 1..k : sc.tr[j]}
+   /\ (sc.keepAll /\ ~res.failed => \A k \in 1..sc.n : (Has("transformations/" \o ToString(k - 1)) <=> sc.tr[k] # "no"))
+   /\ \A k \in 1..sc.n : Has("transformations/" \o ToString(k - 1)) => files["transformations/" \o ToString(k - 1)].bin = {j \in 1..k : sc.tr[j] # "no"}
 \* a failed iteration reports no program
 FailedReportsNothing == (Done /\ res.failed) => res.programs = {}
 Terminates == <>Done
